@@ -247,8 +247,9 @@ func (o *moneyOracle) c04(e *Env, si *StepInfo) {
 			refunds := sdk.ZeroInt()
 			for _, id := range orderIDs(prev.Order) {
 				if co, still := cur.Order.Orders[id]; still {
-					if po := prev.Order.Orders[id]; co.Amount.Amount.LT(po.Amount.Amount) {
-						// replica reduction in the same step: its partial refund is not part of this settlement
+					po := prev.Order.Orders[id]
+					if co.Amount.Amount.LT(po.Amount.Amount) && payees[payAddrOf(prev, po.Owner)] {
+						// replica reduction in the same step refunding the same address: not part of this settlement
 						refunds = refunds.Sub(po.Amount.Amount.Sub(co.Amount.Amount))
 					}
 				}
@@ -297,21 +298,22 @@ func (o *moneyOracle) c05(e *Env, si *StepInfo) {
 		// refund: the payer receives exactly the amounts charged for all its orders ending this way in this step
 		// (plus partial refunds of replica reductions that happen in the same step)
 		want := sdk.ZeroInt()
+		exact := true
 		for _, id2 := range orderIDs(prev.Order) {
 			p2 := prev.Order.Orders[id2]
 			oi2 := t.Orders[id2]
-			if oi2 == nil || oi2.Payer != oi.Payer {
+			if oi2 == nil || (oi2.Payer != oi.Payer && oi2.OwnerPay != oi.Payer) {
 				continue
 			}
 			c2, still := cur.Order.Orders[id2]
-			if !still && !oi2.EverCompleted && p2.Operation != 3 {
+			if !still && !oi2.EverCompleted && p2.Operation != 3 && oi2.Payer == oi.Payer {
 				want = want.Add(p2.Amount.Amount)
-			} else if still && c2.Amount.Amount.LT(p2.Amount.Amount) {
-				want = want.Add(p2.Amount.Amount.Sub(c2.Amount.Amount))
+			} else if !still || c2.Amount.Amount.LT(p2.Amount.Amount) {
+				exact = false // other settlements pay the same address in this step (C04.settle judges those)
 			}
 		}
 		got := sumEdges(si, modAddr("order"), oi.Payer).Add(sumEdges(si, modAddr("market"), oi.Payer))
-		if !got.Equal(want) {
+		if (exact && !got.Equal(want)) || got.LT(want) {
 			o.once(e, "C05", "C05.refund", lab, "refund-not-full-amount-to-payer", fmt.Sprint(id), fmt.Sprintf("order %d ended before any completion: payer %s received %s in this step, amounts charged for its orders ending here total %s", id, fmtAddr(oi.Payer), got, want))
 		}
 		// gone: all shards it listed are absent
